@@ -1,4 +1,4 @@
-(* Props/C09.v — property C09: untrusted bytes never crash; bounded work.   PARTIAL (no CLI argv model).
+(* Props/C09.v — property C09: untrusted bytes never crash; bounded work.   PARTIAL (heap use measured, not proved).
    Statements only; proofs are in Proofs/ChunksRobust.v, CombineRobust.v, NoiseFacts.v, PrimFacts.v,
    KeyringFacts.v, KeyringRefine.v.
 
@@ -17,8 +17,13 @@
    scrypt at most once with the constant parameters, the key path never.
    Two surfaces were FALSE on the code as pinned (genuine defects, repaired by fix: commits); the refutations
    are kept as theorems about the legacy variants of the model (C09_*_refuted_before_fix).
-   PARTIAL — not modelled here: the command-line argument parser and the process exit status ("Error:" line,
-   exit 0/1); actual heap use of the Rust process (measured, not proved). *)
+   The command-line surface IS modelled: argv as byte strings through convert_args (strict UTF-8) and the
+   parser of main.rs (Model/CliArgs.v, CliParse.v, Getopts.v) — C09_argv_bytes_never_panic,
+   C09_argv_bytes_invalid_is_error, C09_argv_bytes_valid at the end of this file; the exit status of a whole
+   command is C12's subject (Model/Cli.v, CliGlue.v).  The Noise length guard of the model is the pair of
+   literals read from noise.rs on every run (Noise.guard_min / guard_max; C09_noise_guard_constants).
+   PARTIAL — not proved: actual heap use of the Rust process (measured by the C11 check); termination of the
+   real process (watchdog). *)
 From Kestrel Require Import Bytes Outcome IO IOFacts Prims.
 From Kestrel.gen Require Import Extracted.
 From Kestrel.Model Require Import AeadWrap Chunks Noise NoiseSpec Files EventPreds FilesSpec ChunksSpec ChunksRobustDefs
@@ -271,8 +276,10 @@ Theorem C09_argv_bytes_valid :
 Proof. exact (CliArgsFacts.cli_parse_bytes_valid_cmd). Qed.
 Print Assumptions C09_argv_bytes_valid.
 
-(* the handshake reader's length guard in the CURRENT sources is the one the model uses (96 = e + encrypted s +
-   tag of the encrypted payload; 65535 = Noise maximum): re-extracted on every run *)
+(* the handshake reader's length guard in the CURRENT sources (96 = e + encrypted s + tag of the encrypted
+   payload; 65535 = Noise maximum): re-extracted on every run.  The model READS the two literals
+   (C09_noise_guard_read_by_model), so C09_noise_total, C09_noise_decrypt_closed_form and every other theorem
+   about noise_decrypt are re-proved against them; this pin states their values *)
 From Kestrel.gen Require Import Extracted.
 Theorem C09_noise_guard_constants : x_noise_guard_min = 96%N /\ x_noise_guard_max = 65535%N.
 Proof. split; reflexivity. Qed.
@@ -306,3 +313,12 @@ Theorem C09_length_check_constants :
   x_noise_nonce_step_enc = 1%N /\ x_noise_nonce_step_dec = 1%N /\ x_noise_set_nonce_assert_max = 1%N.
 Proof. repeat split; intros; reflexivity. Qed.
 Print Assumptions C09_length_check_constants.
+
+(* the model's length guard is built from the extracted literals, not from numbers written in the model *)
+Theorem C09_noise_guard_read_by_model :
+  forall len : nat,
+  read_len_guard false len =
+  (if Nat.leb (N.to_nat x_noise_guard_min) len && (N.of_nat len <=? x_noise_guard_max)%N then Ok tt else Err NOther) /\
+  noise_len_ok len = (Nat.leb (N.to_nat x_noise_guard_min) len && (N.of_nat len <=? x_noise_guard_max)%N)%bool.
+Proof. exact (read_len_guard_reads_extracted). Qed.
+Print Assumptions C09_noise_guard_read_by_model.
